@@ -105,7 +105,7 @@ func c19M7Finder(r *core.R, m *c19Model, s *c19Search, tsFld *types.Var) {
 				narrow = append(narrow, n)
 			}
 		}
-		if ret, ok := n.(*ast.ReturnStmt); ok && m.isSuccessReturn(ret) {
+		if ret, ok := n.(*ast.ReturnStmt); ok && m.okResults(F, ret) != nil {
 			giveUp = append(giveUp, ret)
 		}
 		return !c19Overwrites(info, n, s.fS)
@@ -157,8 +157,8 @@ func c19M7Finder(r *core.R, m *c19Model, s *c19Search, tsFld *types.Var) {
 	for _, ret := range giveUp {
 		nUpper++
 		what := "the upper bound"
-		if s.rLo < len(ret.Results) && objOf(info, ret.Results[s.rLo]) != s.fHi {
-			what = "`" + src(fs, ret.Results[s.rLo]) + "`"
+		if res := m.okResults(F, ret); s.rLo < len(res) && objOf(info, res[s.rLo]) != s.fHi {
+			what = "`" + src(fs, res[s.rLo]) + "`"
 		}
 		if linear && reachedUpper(ret) {
 			r.OK(cUpper, ret.Pos(), "`%s` is reached after a probe found no file only when the cursor %s, which the loop moves by +1 only, has reached %s.SeqNum: every sequence number below the upper bound has been probed", src(fs, ret), cur.Name(), s.fHi.Name())
@@ -176,8 +176,10 @@ func c19M7Finder(r *core.R, m *c19Model, s *c19Search, tsFld *types.Var) {
 	seen := map[token.Pos]*ast.ReturnStmt{}
 	for _, ord := range []int{0, +1} {
 		m.orderWalk(blk, idx, ops.atom(ord, found), ops, func(n ast.Node) bool {
-			if ret, ok := n.(*ast.ReturnStmt); ok && m.isSuccessReturn(ret) && s.rLo < len(ret.Results) && s.fS[objOf(info, ret.Results[s.rLo])] {
-				seen[ret.Pos()] = ret
+			if ret, ok := n.(*ast.ReturnStmt); ok {
+				if res := m.okResults(F, ret); s.rLo < len(res) && s.fS[objOf(info, res[s.rLo])] {
+					seen[ret.Pos()] = ret
+				}
 			}
 			return !c19Overwrites(info, n, s.fS)
 		}, nil)
